@@ -180,6 +180,7 @@ func genRuntime(t *rapid.T) Case {
 	}
 	c.RtClient = rapid.SampledFrom([]string{"transport", "transport", "client"}).Draw(t, "rtclient")
 	c.InPlace = rapid.IntRange(0, 2).Draw(t, "consumers-registered-in-place") == 0
+	c.Schemes = rapid.SampledFrom([]string{"", "", "http,https", "ws,http,https", "https"}).Draw(t, "schemes")
 	c.Again = rapid.IntRange(0, 2).Draw(t, "operation-values-submitted-to-a-second-runtime") == 0
 	c.Debug = rapid.IntRange(0, 3).Draw(t, "debug") == 0
 	c.RtCtx = rapid.SampledFrom([]string{"live", "live", "live", "nil", "cancelled", "expired", "soon", "soon"}).Draw(t, "rtctx")
@@ -246,6 +247,9 @@ func Classify(c Case) (bool, []string) {
 	lab["runtime-level client: "+c.RtClient] = true
 	if c.InPlace {
 		lab["consumers registered in place on the map New returned"] = true
+	}
+	if strings.Contains(c.Schemes, ",") {
+		lab["scheme list with https not first"] = true
 	}
 	if c.Again && !c.Concurrent {
 		lab["operation values submitted again through a second Runtime with its own client"] = true
